@@ -517,3 +517,156 @@ def inline_helpers(F, body, depth=3, max_size=260, skip=(), _stack=()):
                     return {"k": "block", "inlined": n["callee"], "stmts": lets, "expr": nb, "ty": n.get("ty"), "line": n.get("line")}
         return {kk: go(v) for kk, v in n.items()}
     return go(body)
+
+
+def matches_in(body, pred):
+    """match expressions below `body` satisfying pred, with `if let PAT = SCRUT {A} else {B}` presented as the
+    two-arm match it abbreviates ({PAT => A, _ => B}); `?` desugarings are skipped"""
+    out = []
+    for x in walk(body):
+        if x.get("k") == "match" and not is_try(x) and not x.get("src", "").startswith("ForLoopDesugar"):
+            if pred(x):
+                out.append(x)
+        elif x.get("k") == "if" and strip(x["c"]).get("k") == "let":
+            c = strip(x["c"])
+            m = {"k": "match", "src": "IfLet", "scrut": c["init"], "line": x.get("line"), "ty": x.get("ty"),
+                 "arms": [{"pat": c["pat"], "body": x["t"], "line": x.get("line")},
+                          {"pat": {"k": "wild"}, "body": x.get("e") or {"k": "block", "stmts": [], "expr": None}, "line": x.get("line")}]}
+            if pred(m):
+                out.append(m)
+    return out
+
+
+# ---------------------------------------------------------------------------------------------------------------------
+# path enumeration: the feasible paths through a (helper-inlined) body under an oracle that decides some conditions
+# ---------------------------------------------------------------------------------------------------------------------
+def paths(body, oracle, limit=400):
+    """Enumerate control paths through `body`.  oracle(cond_node) → True / False / None (unknown: both branches).
+    Each path is (events, exit) with events a list of
+        ("assign", lhs_text, rhs_node) | ("assignop", lhs_text, op, rhs_node) | ("call", callee_or_method, node)
+    and exit one of "fall" | "continue" | "break" | "ret" (a `return` of the function itself, not of an inlined helper).
+    Inlined helper blocks (see inline_helpers) are entered; their `return e` ends the helper with value e.
+    Values are tracked only as far as boolean literals go (a helper returning true/false drives the caller's `if`)."""
+    out = []
+
+    class _Stop(Exception):
+        pass
+
+    def ev(n, evs, k):
+        """evaluate node n, then call k(value, evs) for every continuation; value: True/False/None"""
+        if len(out) > limit:
+            raise _Stop()
+        if n is None:
+            return k(None, evs)
+        kind = n.get("k")
+        if kind == "block":
+            inl = n.get("inlined")
+            stmts = list(n.get("stmts", []))
+
+            def run(i, evs2):
+                if i < len(stmts):
+                    st = stmts[i]
+                    e = st.get("init") if st.get("k") == "let" else st.get("e")
+                    if e is None:
+                        return run(i + 1, evs2)
+                    return ev(e, evs2, lambda v, e3: run(i + 1, e3))
+                if n.get("expr") is not None:
+                    return ev(n["expr"], evs2, k)
+                return k(None, evs2)
+            if inl:
+                # returns of the helper come back here
+                def kret(v, e3):
+                    return k(v, e3)
+                saved = ev.ret_k
+                ev.ret_k = ev.ret_k + [(inl, kret)]
+                try:
+                    return run(0, evs)
+                finally:
+                    ev.ret_k = saved
+            return run(0, evs)
+        if kind == "lit" and n.get("lk") == "bool":
+            return k(bool(n["v"]), evs)
+        if kind == "if":
+            c = n["c"]
+
+            def after_cond(v, e2):
+                o = oracle(c)
+                if o is None:
+                    o = v
+                if o is None or o is True:
+                    ev(n["t"], e2, k)
+                if o is None or o is False:
+                    if n.get("e") is not None:
+                        ev(n["e"], e2, k)
+                    else:
+                        k(None, e2)
+            if strip(c).get("k") == "let":
+                return after_cond(None, evs)
+            return ev(c, evs, after_cond)
+        if kind == "match":
+            if is_try(n):
+                inner = n["scrut"]["args"][0]
+                return ev(inner, evs, lambda v, e2: k(None, e2))
+            def after_scrut(v, e2):
+                for a in n["arms"]:
+                    lit = a["pat"].get("lit", {}).get("v") if a["pat"].get("k") == "plit" else None
+                    if v is not None and lit is not None and lit != v:
+                        continue
+                    ev(a["body"], e2, k)
+                    if v is not None and (lit == v or a["pat"].get("k") in ("wild", "bind")):
+                        break
+            return ev(n["scrut"], evs, after_scrut)
+        if kind == "ret":
+            if n.get("inl") and ev.ret_k and ev.ret_k[-1][0] == n["inl"]:
+                kk = ev.ret_k[-1][1]
+                saved = ev.ret_k
+                ev.ret_k = ev.ret_k[:-1]
+                try:
+                    return ev(n.get("e"), evs, lambda v, e2: kk(v, e2))
+                finally:
+                    ev.ret_k = saved
+            return ev(n.get("e"), evs, lambda v, e2: out.append((e2, "ret")))
+        if kind == "continue":
+            out.append((evs, "continue"))
+            return
+        if kind == "break":
+            out.append((evs, "break"))
+            return
+        if kind == "assign":
+            return ev(n["r"], evs, lambda v, e2: k(None, e2 + [("assign", render(n["l"]), n["r"])]))
+        if kind == "assignop":
+            return ev(n["r"], evs, lambda v, e2: k(None, e2 + [("assignop", render(n["l"]), n.get("op"), n["r"])]))
+        if kind == "un" and n.get("op") == "!":
+            return ev(n["e"], evs, lambda v, e2: k((not v) if v is not None else None, e2))
+        if kind in ("call", "mcall"):
+            subs = ([n["recv"]] if kind == "mcall" else []) + list(n.get("args", []))
+
+            def runargs(i, e2):
+                if i < len(subs):
+                    return ev(subs[i], e2, lambda v, e3: runargs(i + 1, e3))
+                o = oracle(n)
+                return k(o, e2 + [("call", n.get("callee") or n.get("m"), n)])
+            return runargs(0, evs)
+        if kind in ("ref", "cast", "field", "index"):
+            sub = n.get("e")
+            return ev(sub, evs, lambda v, e2: k(v if kind == "ref" else None, e2))
+        if kind == "let":      # `let` used as a condition
+            return ev(n.get("init"), evs, lambda v, e2: k(None, e2))
+        if kind == "bin":
+            return ev(n["l"], evs, lambda v, e2: ev(n["r"], e2, lambda v2, e3: k(None, e3)))
+        if kind == "closure":
+            return k(None, evs)
+        # anything else: visit sub-expressions in order
+        subs = [v for v in n.values() if isinstance(v, dict) and "k" in v] + [x for v in n.values() if isinstance(v, list) for x in v if isinstance(x, dict) and "k" in x]
+
+        def runsubs(i, e2):
+            if i < len(subs):
+                return ev(subs[i], e2, lambda v, e3: runsubs(i + 1, e3))
+            return k(None, e2)
+        return runsubs(0, evs)
+    ev.ret_k = []
+    try:
+        ev(body, [], lambda v, e2: out.append((e2, "fall")))
+    except _Stop:
+        out.append(([], "limit"))
+    return out
